@@ -452,8 +452,8 @@ type SGSliceA []int32
 type SGSliceB []int32
 type SGSliceC []int32
 type SGSliceD []int32
-type SGSliceU []int32              // never registered
-type SGArrB []int32                // registered with an ARRAY schema (the registry must be consulted whatever the schema type)
+type SGSliceU []int32 // never registered
+type SGArrB []int32   // registered with an ARRAY schema (the registry must be consulted whatever the schema type)
 type SGArrC []int32
 type SGMapSchB []int32             // registered with a MAP schema
 type SGArrReg []int64              // registered with an array schema (C15 only)
